@@ -377,6 +377,14 @@ class Run:
                 # if the damage lies behind the image data (plain libpng's png_read_end is stricter than needed)
                 if not (fate == "DIE" or (fate == "OK" and mat is not None)):
                     self.fail("damaged png", "refused: libpng refuses the file; expected NULL or abort with a diagnostic, got %s" % fate, script)
+                else:
+                    # how far plain libpng got: an error before all image rows were delivered (stage 0 header, 1 rows)
+                    # means there is no image to return - a matrix is then a malformed file accepted
+                    e = get(orc, "E")
+                    stage = [t for t in (e or []) if t.startswith("stage=")]
+                    if stage and int(stage[0][6:]) < 2 and fate == "OK" and mat is not None and mat != ("N",):
+                        self.fail("damaged png", "accepted: plain libpng fails before the image data is complete (%s) but mzd_from_png "
+                                  "returned a matrix" % stage[0], script)
 
     # ---------------------------------------------------------------- JCF
     def jcf(self, ioh, nvalid, given=None):
@@ -416,6 +424,11 @@ class Run:
                     ("-(ncols+1)", lambda: t.__setitem__(k, -(n + 1))),
                     ("non-numeric token", lambda: t.__setitem__(k, rng.choice(["x", "1x", "--3", "", "0x10", "1e3"]))),
                     ("INT_MIN entry", lambda: t.__setitem__(k, -(1 << 31))),
+                    # indices that become valid when narrowed to 32 bits (the tokens are read as long)
+                    ("index = k*2^32 + c", lambda: t.__setitem__(k, (rng.choice([1, 1, 3, 256, 1 << 20]) * (1 << 32) + rng.choice([1, n, rng.randint(1, n)]))
+                                                                 * (1 if t[k] > 0 else -1))),
+                    ("index = 2^32 + c (entry)", lambda: t.append((1 << 32) + rng.randint(1, n))),
+                    ("index = c - 2^32", lambda: t.__setitem__(k, (rng.randint(1, n) - (1 << 32)) if t[k] > 0 else -(rng.randint(1, n) + (1 << 32)))),
                 ]
                 for name, f in muts:
                     t = list(toks)
